@@ -225,6 +225,12 @@ Definition gj_inverse (D : list (list T)) : list (list T) :=
   let aug := map (fun ir => snd ir ++ unit_row n (fst ir)) (combine (seq 0 n) D) in
   map (skipn n) (fold_left (fun rows k => gj_step k rows) (seq 0 n) aug).
 
+(** the pivots met by the elimination (the hypothesis of the inverse theorem C02_GJ.gj_sym_inverse is that none is zero) *)
+Definition gj_pivots (D : list (list T)) : list T :=
+  let n := length D in
+  let aug := map (fun ir => snd ir ++ unit_row n (fst ir)) (combine (seq 0 n) D) in
+  map (fun k => nth k (nth k (fold_left (fun rows k => gj_step k rows) (seq 0 k) aug) []) (n0 K)) (seq 0 n).
+
 Definition aiK : AOps T (SpatialVec T) (Vec3 T) (SpInertia (T:=T)) ArtInertia :=
   mkAOps T (SpatialVec T) (Vec3 T) (SpInertia (T:=T)) ArtInertia (nopp K) ai_ofI ai_add ai_shift ai_apply ai_down gj_inverse.
 End AI.
@@ -263,6 +269,9 @@ Definition out_rnea_of_fd (t : tree cbx) : list (nat * list T) :=
   map (fun r => (c_idx (w_x (fst (fst (fst r)))), snd r)) (flatten (rnea_of_fd KKc AAc c_nd c_dy t)).
 Definition out_equiv (t : tree cbx) : list (nat * list T) :=
   map (fun r => (c_idx (fst (fst r)), snd r)) (flatten (equivf KKc AAc c_nd c_dy t)).
+(** elimination pivots of every body's D block *)
+Definition out_pivots (t : tree cbx) : list (nat * list T) :=
+  map (fun r => (c_idx (fst r), gj_pivots K (a_D (snd r)))) (flatten (abi_pass KKc AAc c_nd t)).
 (** mobilizer reactions at the body origins by the two routes (equal over R by theorem reaction_routes_agree) *)
 Definition out_react_art (t : tree cbx) : list (nat * SVt) :=
   map (fun r => (c_idx (w_x (fst r)), snd (snd r))) (flatten (react_art KKc AAc c_nd c_dy t)).
